@@ -22,7 +22,9 @@ RULE = ('contents: every subset-overlay of the nine format signatures (images.SI
         'signatures, text files (with a late non-ASCII byte, a NUL, a createType line early or late) and binary '
         'files; x allowed_formats from a bounded family of 19 subsets (with / without raw, singletons, all) x '
         'read-size sequences (1, 17, 64, 512, 4096, 65536, 1 MiB, random with empty reads; always a final empty read); '
-        'the decision (format / formats) is sampled after every read and after close. A case is non-trivial when a '
+        'the decision (format / formats) is sampled after every read and after close; plus sequences in one process: '
+        'a valid image of each format (and 2 KiB of zeros) inspected first, then short / empty / other-format '
+        'streams, whose decisions must be those of the stream alone. A case is non-trivial when a '
         'non-raw inspector matched, or a decision was reached before the last read, or allowed_formats excludes raw; '
         'distinct by (content digest, allowed_formats, read sizes)')
 TRUSTED_BASE = [
@@ -84,11 +86,19 @@ def gen_cases(ctx):
     return out
 
 
-def case_of(label, data, allowed, sizes, sizes_b=None):
+def case_of(label, data, allowed, sizes, sizes_b=None, prior=None, prior_b=None):
     c = {'label': label, 'allowed': allowed, 'content': insp_impl.content_field(data), 'sizes': list(sizes)}
     if sizes_b is not None:
         c['sizes_b'] = list(sizes_b)
+    if prior is not None:
+        c['prior'] = [insp_impl.content_field(p) for p in prior]
+    if prior_b is not None:
+        c['prior_b'] = [insp_impl.content_field(p) for p in prior_b]
     return c
+
+
+def priors_of(case, key='prior'):
+    return [G.decode_content(p) for p in case.get(key, [])]
 
 
 def correspondence(ctx):
@@ -117,6 +127,24 @@ def correspondence(ctx):
                         'decisions': decs[:6], 'after_close': final}, 8)
         if pi != pm:
             out.append(Disagreement(case_of(label, data, al, sizes), pi, pm))
+    # sequences: a valid image of some format is inspected first, then short / other streams in the same
+    # process; the model has no state between requests, so the later stream must look exactly as it does alone
+    priors = G.c03_priors(rng, ctx.quick)
+    laters = G.c03_laters(rng, ctx.quick)
+    seq = []
+    for plabel, pdata in priors:
+        for llabel, ldata in (rng.sample(laters, 6) if ctx.quick else laters):
+            al = rng.choice([None, None, rng.choice(G.ALLOWED_FAMILY)])
+            seq.append((plabel, pdata, llabel, ldata, al, rng.choice([[4096, 0], [len(ldata), 0], [64, 512, 4096, 0]])))
+    replies = G.ask_par(ctx.driver, [G.wrap_req(al, None, ldata, sizes) for _, _, _, ldata, al, sizes in seq])
+    for (plabel, pdata, llabel, ldata, al, sizes), rep in zip(seq, replies):
+        ctx.evaluations += 1
+        ctx.count('corr/after-prior/' + plabel)
+        inspect_prior([pdata])
+        pi, pm = proj(insp_impl.run_wrap(al, None, ldata, sizes)[0]), proj(rep)
+        ctx.nontrivial(('seq', plabel, G.digest(ldata), tuple(al or ()), tuple(sizes)))
+        if pi != pm:
+            out.append(Disagreement(case_of('%s after %s' % (llabel, plabel), ldata, al, sizes, prior=[pdata]), pi, pm))
     # detect_file_format on files (the model's `detect` request; the exit status belongs to C02)
     files = [(l, d) for l, d in G.c03_contents(rng, True) if len(d) <= 64 * images.K]
     rng.shuffle(files)
@@ -139,8 +167,28 @@ def correspondence(ctx):
 # --------------------------------------------------------------------------
 # failing-input search: the clauses of the property on the implementation only
 
-def oracle(allowed, data, sizes):
-    """(why or None, trace)"""
+def inspect_prior(priors):
+    """inspect earlier streams in this process (wrapper with all formats, 4096-byte reads, close; then the
+    decision is read) - whatever they leave behind must not influence the next stream"""
+    F = G.fi()
+    for data in priors:
+        w = F.InspectWrapper(G.io.BytesIO(data))
+        while w.read(4096):
+            pass
+        w.close()
+        try:
+            w.format
+        except F.ImageFormatError:
+            pass
+
+
+def summary(t):
+    return (tuple(t['decisions']), t['final'], tuple(sorted(t['matches'].items())), t['escaped'])
+
+
+def oracle(allowed, data, sizes, prior=()):
+    """(why or None, trace); `prior`: byte strings inspected before, in the same process"""
+    inspect_prior(prior)
     t = G.wrap_trace(allowed, data, sizes)
     allowed_set = set(allowed) if allowed else set(G.ALLF)
     if t['escaped']:
@@ -235,12 +283,12 @@ def search(ctx, seeds, full=False):
             return
         (known_like if f1 else fresh).append(Failure(case, {'kind': kind, 'what': why}))
 
-    def run(label, data, al, sizes):
+    def run(label, data, al, sizes, prior=()):
         ctx.evaluations += 1
-        why, t = oracle(al, data, sizes)
+        why, t = oracle(al, data, sizes, prior)
         if why and len(fresh) < 8:
             def still(sub):
-                return oracle(al, data, sub)[0] is not None
+                return oracle(al, data, sub, prior)[0] is not None
             small = sizes
             for cand in ([len(data), 0], [4096] * (len(data) // 4096 + 1) + [0], [512] * (len(data) // 512 + 1) + [0]):
                 if len(cand) < len(small) and still(cand):
@@ -248,8 +296,35 @@ def search(ctx, seeds, full=False):
                     break
             if 1 < len(small) <= 48:
                 small = common.shrink_list(small, still, max_steps=30)
-            add(case_of(label, data, al, small), '%s: %s' % (label, oracle(al, data, small)[0]))
+            add(case_of(label, data, al, small, prior=list(prior) or None),
+                '%s: %s' % (label, oracle(al, data, small, prior)[0]))
         return t
+
+    def sequences(n_later):
+        """a valid image of each format first, then one or two later streams: every clause on the later
+        streams, and their whole trace must not depend on what was inspected before"""
+        priors = G.c03_priors(rng, ctx.quick)
+        laters = G.c03_laters(rng, ctx.quick)
+        for llabel, ldata in laters:
+            if len(fresh) >= 8:
+                return
+            al = rng.choice([None, None, rng.choice(G.ALLOWED_FAMILY)])
+            sizes = rng.choice([[4096, 0], [len(ldata), 0], [64, 512, 4096, 0]])
+            seen = []
+            for plabel, pdata in priors:
+                prior = [pdata]
+                if rng.random() < 0.3:          # a second, short stream in between
+                    prior.append(rng.choice(laters[:8])[1])
+                t = run('%s after %s' % (llabel, plabel), ldata, al, sizes, prior)
+                seen.append((summary(t), plabel, prior))
+            base = seen[-1]                      # after 2048 zero bytes
+            for sm, plabel, prior in seen[:-1]:
+                if sm != base[0]:
+                    add(case_of('%s after %s' % (llabel, plabel), ldata, al, sizes, prior=prior, prior_b=base[2]),
+                        '%s: the decisions depend on what was inspected before: after %s %s / matches %s, after %s '
+                        '%s / matches %s' % (llabel, plabel, sm[1], [k for k, v in sm[2] if v],
+                                             base[1], base[0][1], [k for k, v in base[0][2] if v]))
+                    break
 
     tmp = tempfile.mkdtemp(prefix='verif-C03s-')
     try:
@@ -262,9 +337,10 @@ def search(ctx, seeds, full=False):
                     add(dict(s), why)
                 run(s.get('label', 'seed'), data, None, [4096] * (len(data) // 4096 + 2))
             else:
-                run(s.get('label', 'seed'), data, s.get('allowed'), s['sizes'])
+                run(s.get('label', 'seed'), data, s.get('allowed'), s['sizes'], priors_of(s))
         rounds = (2 if full else 1) if ctx.quick else (4 if full else 2)
         for _ in range(rounds):
+            sequences(2)
             contents = G.c03_contents(rng, ctx.quick)
             if full or not ctx.quick:
                 contents += G.c03_huge_contents(rng, True)
@@ -371,6 +447,25 @@ def replay(ctx, payload):
         print('model         : detect ->', ctx.driver.ask(G.detect_req(data)).split('\t')[0])
         print('property oracle on the implementation:', why)
         return 1 if why else 0
+    if 'prior' in case:
+        summaries = []
+        for key in ('prior', 'prior_b'):
+            if key not in case:
+                continue
+            pr = priors_of(case, key)
+            print('inspected before, in the same process: %s' % ['%d bytes starting %r' % (len(p), p[:8]) for p in pr])
+            inspect_prior(pr)
+            print('  implementation:', proj(insp_impl.run_wrap(al, None, data, case['sizes'])[0]).replace('\t', '  ||  '))
+            why, t = oracle(al, data, case['sizes'], pr)
+            summaries.append(summary(t))
+            print('  property oracle on the implementation:', why)
+            rc = rc or (1 if why else 0)
+        print('model (no state between streams):',
+              proj(ctx.driver.ask(G.wrap_req(al, None, data, case['sizes']))).replace('\t', '  ||  '))
+        if len(summaries) == 2 and summaries[0] != summaries[1]:
+            print('the decisions for the same stream depend on what was inspected before')
+            rc = 1
+        return rc
     for key in ('sizes', 'sizes_b'):
         if key not in case:
             continue
